@@ -3,6 +3,7 @@
 //! canonical results.
 mod gast;
 mod gen;
+mod genvalid;
 mod jobs;
 mod op_trace;
 mod op_validate;
